@@ -298,6 +298,8 @@ CHECKS["C03"] = _syn("C03", "depth limits respected, every feasible limit usable
     "deciders (directly and through GE / SGE mapping) and dSGE: decider construction, creation, mutation and "
     "crossover chains; raw draws are counted so that a rejection can be shown to be up-front",
     extra_assume=["the feasibility threshold is the minimum depth the implementation reports (its exactness is C05)"])
+# decision-level conformance: every production / union choice asked of the real decider, replayed on the program
+CHECKS["C03"]["drivers"].append({"module": "harness.drv_derive", "trace": "Trace_Derive"})
 CHECKS["C10"] = _syn("C10", "the grammar is read-only during synthesis and search",
     "one trace per grammar: workloads at depths below / at / above the minimum (including failing and backtracking "
     "ones: dependent refinements over an empty context, exhausted stack genomes) followed by a full re-projection "
